@@ -65,11 +65,7 @@ Theorem C07_times_percent_formula : forall clk s1 s2,
   (Zpos clk <= spec_total (dticks s1 s2))%Z ->
   Forall2 Qeq (calc_times_percent (map (secs clk) s1) (map (secs clk) s2))
               (map (fun x => Qmin (inject_Z (100 * x) / inject_Z (spec_total (dticks s1 s2))) 100) (dticks s1 s2)).
-Proof.
-  intros clk s1 s2 Hl Hn HT. pose proof (times_percent_formula clk s1 s2 Hl Hn HT) as H.
-  unfold spec_shares, spec_share in H.
-  destruct (spec_total (dticks s1 s2) =? 0)%Z eqn:E; [apply Z.eqb_eq in E; lia|exact H].
-Qed.
+Proof. exact times_percent_formula_inl. Qed.
 Print Assumptions C07_times_percent_formula.
 
 (* ... and the shares of user, nice, system, idle, iowait, irq, softirq, steal add up to exactly 100 *)
@@ -96,19 +92,14 @@ Theorem C07_demanded_shares : forall s1 s2,
   length s1 = length s2 -> (7 <= length s1 <= 10)%nat ->
   Forall (fun x => 0 <= x <= 100) (spec_shares s1 s2)
   /\ ((0 < spec_total (dticks s1 s2))%Z -> qsum (firstn 8 (spec_shares s1 s2)) == 100).
-Proof. intros s1 s2 Hl Hn. split; [apply spec_shares_bounds|now apply spec_shares_sum]. Qed.
+Proof. exact demanded_shares. Qed.
 Print Assumptions C07_demanded_shares.
 
 (* nothing moved: all shares 0 *)
 Theorem C07_times_percent_zero : forall clk s1 s2,
   Forall (fun x => x = 0%Z) (dticks s1 s2) ->
   Forall2 Qeq (calc_times_percent (map (secs clk) s1) (map (secs clk) s2)) (map (fun _ => 0) (dticks s1 s2)).
-Proof.
-  intros clk s1 s2 H. pose proof (times_percent_zero clk s1 s2 H) as G.
-  unfold spec_shares in G.
-  replace (spec_total (dticks s1 s2)) with 0%Z in G; [exact G|].
-  unfold spec_total, spec_busy. now rewrite !tk_zero.
-Qed.
+Proof. exact times_percent_zero_inl. Qed.
 Print Assumptions C07_times_percent_zero.
 
 (* ---- each calling thread is measured against its own previous sample, for all four
@@ -143,32 +134,29 @@ Theorem C07_proc_first_call : forall clk e,
 Proof. exact proc_first_call. Qed.
 Print Assumptions C07_proc_first_call.
 
-(* one call on an object that holds its previous reading [prev] (taken with the same number
-   of CPUs n): 100 * cpu seconds / wall seconds since that reading (blocking: over the
-   interval), 0 if no wall time elapsed; afterwards the object holds this call's last reading.
-   Inductive step for every sequence of calls on every object. *)
+(* one call on an object that holds its previous reading [prev] (if any), whatever cpu_count()
+   answers now or answered before: 100 * cpu seconds / wall seconds since that reading (blocking:
+   over the interval), 0 if no wall time elapsed; afterwards the object holds this call's last reading *)
 Theorem C07_proc_percent_formula : forall clk st e prev,
-  let n := ncpu_eff (pe_ncpu e) in
-  match prev with Some p => holds clk n st p | None => st = p_init end ->
+  match prev with Some p => holds clk st p | None => st = p_init end ->
   pe_iv e <> INeg ->
   out_eq Qeq (snd (proc_step clk st e))
              (match pe_iv e with
               | IPos => Val (spec_proc_pct clk (pe_first e) (pe_t2 e, pe_u2 e, pe_s2 e))
               | _ => match prev with Some p => Val (spec_proc_pct clk p (pe_first e)) | None => Val 0 end
               end)
-  /\ holds clk n (fst (proc_step clk st e)) (pe_last e).
+  /\ holds clk (fst (proc_step clk st e)) (pe_last e).
 Proof. exact proc_step_spec. Qed.
 Print Assumptions C07_proc_percent_formula.
 
-(* the hypothesis "same number of CPUs" cannot be dropped: 0.6 CPU-seconds over 2 wall
-   seconds with cpu_count() 4 then 2 give -7.5 where the property demands 30 *)
-Theorem C07_proc_ncpu_change_refuted :
-  exists clk evs,
-    Forall2 (out_eq Qeq) (proc_run clk [] evs) [Val 0; Val (-15 # 2)]
-    /\ Forall2 (out_eq Qeq) (spec_proc_run clk [] evs) [Val 0; Val (30 # 1)]
-    /\ forallb (fun oe => negb (is_neg (pe_iv (snd oe)))) evs = true.
-Proof. exact proc_ncpu_change_refuted. Qed.
-Print Assumptions C07_proc_ncpu_change_refuted.
+(* every sequence of calls (blocking, non-blocking, negative intervals) on any number of Process
+   objects, with any cpu_count() answers (also changing between calls -- the defect repaired by
+   /repo commit 8e92b46): each result is the demanded one, computed from the history of that
+   object alone (spec_proc_run looks only at earlier calls on the same object) *)
+Theorem C07_proc_percent_all_sequences : forall clk evs,
+  Forall2 (out_eq Qeq) (proc_run clk [] evs) (spec_proc_run clk [] evs).
+Proof. exact proc_run_spec. Qed.
+Print Assumptions C07_proc_percent_all_sequences.
 
 (* ---- the hypotheses are satisfiable by non-trivial inputs *)
 Example C07_wf_example :
